@@ -1,6 +1,6 @@
 (* Run/C07Run.v — entry points for harness/c07.py (exact rationals) *)
 From Coq Require Import ZArith QArith Qcanon List Bool Arith.
-From JV Require Import Base.Num Model.CandleStore Model.CandleView Run.Harness.
+From JV Require Import Base.Num Model.CandleStore Model.CandleView Proofs.FeedProofs Run.Harness.
 Import ListNotations.
 Import QcI.
 
@@ -19,8 +19,8 @@ Definition view_is_aggregation (c : view_case) : bool :=
    partial candles per minute, and what get_candles returns *)
 Definition feed_case := (nat * list kc * list (list kc) * list kc * list kc * list kc)%type.
 (* n, input candles (gap-fixed), partials per minute, real 1m store, real tf store, real get_candles(tf) *)
-Definition run_feed (n : nat) (cs : list kc) (parts : list (list kc)) : list kc * list kc :=
-  fold_left (fun st ip => step_minute n cs (fst ip) (snd ip) st) (combine (seq 0 (length parts)) parts) ([], []).
+(* the fold about which Props/C07.v proves C07_normal_simulator_views_are_aggregations *)
+Definition run_feed (n : nat) (cs : list kc) (parts : list (list kc)) : list kc * list kc := FeedProofs.feed_list n cs parts.
 Definition feed_agrees (c : feed_case) : bool :=
   let '(n, cs, parts, s1, sn, got) := c in
   let '(short, long) := run_feed n cs parts in
